@@ -10,7 +10,7 @@
 From Coq Require Import List NArith ZArith Bool Permutation.
 From Common Require Import Outcome.
 From BlockTree Require Import Model Spec ProofsTree ProofsPath ProofsSpec ProofsSim ProofsQuery
-  ProofsBest ProofsHist ProofsPre ProofsOrder.
+  ProofsBest ProofsHist ProofsPre ProofsOrder ProofsShape ProofsInterleave.
 Import ListNotations.
 Local Open Scope N_scope.
 
@@ -97,6 +97,43 @@ Theorem C16_every_parent_first_order : forall h x a1 a2 ops1 ops2 pi1 sigma1 pi2
 Proof. exact insertion_order_free_pf. Qed.
 Print Assumptions C16_every_parent_first_order.
 
+(* ... and WITH finalisations in between.  General form: two histories made of the same
+   additions and any finalisations (Permutation), one header and arrival time per hash
+   (one_addition_per_hash), that end on the same finalised root and in which every addition that
+   matters is accepted (accepts_below: every record of the history whose block is reached from
+   that root through the records' parent links is among the accepted ones -- additions on
+   abandoned forks may be accepted in one history and refused in the other) hold the same blocks
+   and choose the same best block, whatever the iteration orders. *)
+Theorem C16_interleavings_same_best : forall h x a1 a2 ops1 ops2 pi1 sigma1 pi2 sigma2,
+  Permutation ops1 ops2 ->
+  one_addition_per_hash h ops1 ->
+  nhash (root (tree_after h x a1 ops1)) = nhash (root (tree_after h x a2 ops2)) ->
+  accepts_below h x ops1 (nhash (root (tree_after h x a1 ops1))) ->
+  accepts_below h x ops2 (nhash (root (tree_after h x a2 ops2))) ->
+  permuting pi1 -> permuting sigma1 -> permuting pi2 -> permuting sigma2 ->
+  best_block_hash_ord pi1 sigma1 (tree_after h x a1 ops1) =
+  best_block_hash_ord pi2 sigma2 (tree_after h x a2 ops2)
+  /\ Permutation (get_all_blocks (tree_after h x a1 ops1)) (get_all_blocks (tree_after h x a2 ops2)).
+Proof. exact interleavings_same_best. Qed.
+Print Assumptions C16_interleavings_same_best.
+
+(* Checkable special case: two interleavings of the same additions and the same finalisation
+   events (same targets in the same order, each target held when requested), every AddBlock
+   answering nil in both. *)
+Theorem C16_interleavings_with_finalisations : forall h x a1 a2 ops1 ops2 pi1 sigma1 pi2 sigma2,
+  Permutation ops1 ops2 ->
+  one_addition_per_hash h ops1 ->
+  adds_ok (snd (run (new_tree h x a1) ops1)) ->
+  adds_ok (snd (run (new_tree h x a2) ops2)) ->
+  fin_targets ops1 = fin_targets ops2 ->
+  fins_known (mkSst h x []) ops1 -> fins_known (mkSst h x []) ops2 ->
+  permuting pi1 -> permuting sigma1 -> permuting pi2 -> permuting sigma2 ->
+  best_block_hash_ord pi1 sigma1 (tree_after h x a1 ops1) =
+  best_block_hash_ord pi2 sigma2 (tree_after h x a2 ops2)
+  /\ Permutation (get_all_blocks (tree_after h x a1 ops1)) (get_all_blocks (tree_after h x a2 ops2)).
+Proof. exact interleavings_with_finalisations. Qed.
+Print Assumptions C16_interleavings_with_finalisations.
+
 (* bestBlock itself (used by GetHashByNumber and GetHashesAtNumber), whenever the root has a
    child: the argmax, for every pair of iteration orders *)
 Theorem C16_best_block_argmax : forall h x a ops pi sigma,
@@ -143,4 +180,48 @@ Proof.
   - simpl. intuition.
   - simpl. intros ([E|[]] & _). discriminate.
   - vm_compute. reflexivity.
+Qed.
+
+(* the hypotheses of C16_interleavings_with_finalisations are met by two real interleavings: the
+   finalisation of block 1 comes before the addition of its child 3 in one and last in the other;
+   block 2 is abandoned by it in both *)
+Example C16_interleavings_nonvacuous :
+  let b1 := OAdd (mkHeader 1 100 1 DPrimary) 5%Z in
+  let b2 := OAdd (mkHeader 2 100 1 DPrimary) 3%Z in
+  let b3 := OAdd (mkHeader 3 1 2 DSecondaryPlain) 0%Z in
+  let b4 := OAdd (mkHeader 4 1 2 DPrimary) 9%Z in
+  let o1 := [b1; b2; OFin 1; b3; b4] in
+  let o2 := [b2; b1; b4; b3; OFin 1] in
+  Permutation o1 o2
+  /\ one_addition_per_hash 100 o1
+  /\ adds_ok (snd (run (new_tree 100 0 0%Z) o1)) /\ adds_ok (snd (run (new_tree 100 0 0%Z) o2))
+  /\ fin_targets o1 = fin_targets o2
+  /\ fins_known (mkSst 100 0 []) o1 /\ fins_known (mkSst 100 0 []) o2
+  /\ snd (run (new_tree 100 0 0%Z) o2) = [RAdd (Ok tt); RAdd (Ok tt); RAdd (Ok tt); RAdd (Ok tt); RFin [2]]
+  /\ best_block_hash (tree_after 100 0 0%Z o1) = Ok 4
+  /\ best_block_hash (tree_after 100 0 0%Z o2) = Ok 4.
+Proof.
+  cbv zeta. split; [|split; [split|]].
+  - apply (perm_trans (l' := [OAdd (mkHeader 2 100 1 DPrimary) 3%Z; OAdd (mkHeader 1 100 1 DPrimary) 5%Z;
+                              OFin 1; OAdd (mkHeader 3 1 2 DSecondaryPlain) 0%Z; OAdd (mkHeader 4 1 2 DPrimary) 9%Z])).
+    + apply perm_swap.
+    + do 2 apply perm_skip.
+      apply (perm_trans (l' := [OAdd (mkHeader 3 1 2 DSecondaryPlain) 0%Z; OAdd (mkHeader 4 1 2 DPrimary) 9%Z; OFin 1])).
+      * apply (Permutation_app_comm [_] [_; _]).
+      * apply (perm_trans (l' := [OAdd (mkHeader 4 1 2 DPrimary) 9%Z; OAdd (mkHeader 3 1 2 DSecondaryPlain) 0%Z; OFin 1])).
+        -- apply perm_swap.
+        -- apply Permutation_refl.
+  - intros hd a hd' a' H1 H2 E. simpl in H1, H2.
+    assert (K : forall hd a, OAdd (mkHeader 1 100 1 DPrimary) 5%Z = OAdd hd a \/
+                             OAdd (mkHeader 2 100 1 DPrimary) 3%Z = OAdd hd a \/ OFin 1 = OAdd hd a \/
+                             OAdd (mkHeader 3 1 2 DSecondaryPlain) 0%Z = OAdd hd a \/
+                             OAdd (mkHeader 4 1 2 DPrimary) 9%Z = OAdd hd a \/ False ->
+                (hd, a) = match h_hash hd with
+                          | 1 => (mkHeader 1 100 1 DPrimary, 5%Z) | 2 => (mkHeader 2 100 1 DPrimary, 3%Z)
+                          | 3 => (mkHeader 3 1 2 DSecondaryPlain, 0%Z) | _ => (mkHeader 4 1 2 DPrimary, 9%Z) end).
+    { intros hd0 a0 H. repeat (destruct H as [H|H]; [inversion H; reflexivity|]). contradiction. }
+    pose proof (K _ _ H1) as K1. pose proof (K _ _ H2) as K2. rewrite E in K1.
+    assert (Ep : (hd, a) = (hd', a')) by congruence. inversion Ep. auto.
+  - intros hd a H. simpl in H. repeat (destruct H as [H|H]; [inversion H; simpl; discriminate|]). contradiction.
+  - vm_compute. repeat split; repeat constructor.
 Qed.
